@@ -40,6 +40,7 @@ type World struct {
 type feedRec struct {
 	id         string
 	coll       string
+	colls      []string // a bucket-level feed over several collections (coll is then the first of them)
 	mu         sync.Mutex
 	events     []string
 	delivered  int64 // live events delivered (after end of backfill / from start)
@@ -532,6 +533,8 @@ func (w *World) exec(l Line) (res string) {
 		return w.startFeed(l)
 	case "drain":
 		return w.drain(l)
+	case "mfeed":
+		return w.startMultiFeed(l)
 	case "feedstat":
 		f := w.feeds[l.Pos[0]]
 		if f == nil {
@@ -731,6 +734,58 @@ func (w *World) startFeed(l Line) string {
 		f.doneClosed.Store(true)
 	}()
 	return "r=" + errClass(err)
+}
+
+// startMultiFeed starts a bucket-level feed over several collections (Bucket.StartDCPFeed with Scopes): one terminator, one done
+// channel that closes when every per-collection feed has ended.
+func (w *World) startMultiFeed(l Line) string {
+	id := l.Pos[0]
+	labs := strings.Split(l.Pos[1], ",")
+	b := w.handles[l.str("via", "h0")]
+	if b == nil {
+		return "r=harness-nohandle"
+	}
+	f := &feedRec{id: id, coll: labs[0], colls: labs, term: make(chan bool), done: make(chan struct{})}
+	scopes := map[string][]string{}
+	for _, lab := range labs {
+		sc := w.scopes[lab]
+		scopes[sc[0]] = append(scopes[sc[0]], sc[1])
+	}
+	args := sgbucket.FeedArguments{ID: id, Backfill: sgbucket.FeedNoBackfill, Terminator: f.term, DoneChan: f.done, Scopes: scopes}
+	w.mu.Lock()
+	w.feeds[id] = f
+	w.mu.Unlock()
+	cb := func(e sgbucket.FeedEvent) bool {
+		f.mu.Lock()
+		defer f.mu.Unlock()
+		if f.doneClosed.Load() {
+			f.afterDone++
+		}
+		if f.termClosed.Load() {
+			f.afterTerm++
+		}
+		f.events = append(f.events, fmtEvent(e))
+		f.delivered++
+		return true
+	}
+	err := b.StartDCPFeed(ctx, args, cb, nil)
+	go func() {
+		<-f.done
+		f.doneClosed.Store(true)
+	}()
+	return "r=" + errClass(err)
+}
+
+func (f *feedRec) onColl(lab string) bool {
+	if len(f.colls) == 0 {
+		return f.coll == lab
+	}
+	for _, c := range f.colls {
+		if c == lab {
+			return true
+		}
+	}
+	return false
 }
 
 // drain waits until the feed has delivered everything posted so far, then prints the events received since the last drain.
